@@ -641,6 +641,14 @@ fn c12_outcome(rng: &mut Rng, kind: &str, which: usize, tid: u16, unit: u8) -> S
         // wrong function
         3 => frame(kind, tid, unit, &[0x04, 0x02, 0x00, 0x01]),
         // undecodable frame
+        4 if kind == "tcp" && rng.chance(1, 5) => {
+            // … whose length field announces more than any PDU may have, arriving in two segments
+            // (the call must still take all of it off the stream)
+            let n = *rng.pick(&[254usize, 255, 300, 1000]);
+            let f = frame(kind, tid, unit, &rng.bytes(n));
+            let cut = rng.range(7, f.len() - 1);
+            return format!("call {rq} r=d{},d{}", hex_raw(&f[..cut]), hex_raw(&f[cut..]));
+        }
         4 => {
             if kind == "tcp" && rng.chance(1, 3) {
                 let mut f = frame(kind, tid, unit, &good_pdu);
@@ -735,7 +743,57 @@ pub fn gen_c12(out: &mut Out, rng: &mut Rng, thorough: bool) {
     }
 }
 
+/// "a call never gives up before consuming the reply to a request it has transmitted": when the
+/// script of a call is exactly one MBAP frame (by its length field – decodable or not), the call
+/// takes all of it off the transport; nothing of it is left for the next call to find
+fn mon_c12_consumes_reply(out: &mut Out, l: &str, r: &str) {
+    let orig = out.orig.clone();
+    let (head, ops) = ops_of(l);
+    let (ohead, oops) = ops_of(&orig);
+    if head[0] != "cli" || head[1] != "tcp" || ohead.len() != head.len() || ops.len() != oops.len() {
+        return;
+    }
+    // (the histories of C12's own generator: nothing in them leaves events behind on purpose)
+    if ops.last().is_none_or(|o| o.arg != "RHR:0007:0001") {
+        return;
+    }
+    let res = parts(r);
+    for (k, (o, oo)) in ops.iter().zip(oops.iter()).enumerate() {
+        // scripts and consumption are aligned only as long as every earlier op took exactly the
+        // events that were scripted for it
+        if k > 0 {
+            let (po, poo) = (&ops[k - 1], &oops[k - 1]);
+            if field("r", &po.fields) != field("r", &poo.fields) && parse_events(field("r", &po.fields)).data != parse_events(field("r", &poo.fields)).data {
+                return;
+            }
+            if parse_events(field("r", &poo.fields)).has_fault {
+                return;
+            }
+        }
+        if o.name != "call" || oo.name != "call" || !oo.fields.iter().all(|f| f.starts_with("r=")) {
+            continue;
+        }
+        let want = parse_events(field("r", &oo.fields));
+        if want.has_fault || want.data.len() < 8 {
+            continue;
+        }
+        let len = usize::from(want.data[4]) << 8 | usize::from(want.data[5]);
+        if len == 0 || want.data.len() != 6 + len {
+            continue;
+        }
+        let outcome = outcome_of(res.get(k).copied().unwrap_or(""));
+        if outcome == "abandoned" || outcome == "blocked" {
+            continue;
+        }
+        let got = parse_events(field("r", &o.fields));
+        // (the last op also carries whatever nobody read)
+        let taken = if k + 1 == ops.len() { got.data.len().min(want.data.len()) } else { got.data.len() };
+        out.check(taken >= want.data.len(), || format!("call {k} returned `{outcome}` after taking {taken} of the {} bytes of the reply frame it was receiving: the rest is left for the next call", want.data.len()), l);
+    }
+}
+
 pub fn mon_c12(out: &mut Out, l: &str, r: &str) {
+    mon_c12_consumes_reply(out, l, r);
     let (head, ops) = ops_of(l);
     if head[0] != "cli" || ops.is_empty() {
         return;
@@ -1282,7 +1340,9 @@ pub fn gen_c16(out: &mut Out, rng: &mut Rng, thorough: bool) {
     let patterns = if thorough { 120 } else { 30 };
     for si in 0..shapes {
         let kind = if si % 2 == 0 { "tcp" } else { "rtu" };
-        let unit = rng.unit();
+        // the first shapes run on the units at the borders of the address classes (the TCP default
+        // 255 among them), the rest on any
+        let unit = if si < 10 { [0xFFu8, 0x00, 0x01, 0xF7, 0xF8][si / 2] } else { rng.unit() };
         let req1 = loop {
             let hint = rng.below(5);
             let r = gen_request(rng, Some(hint));
